@@ -1847,9 +1847,9 @@ class Dosini(object):
                 'repeatRetries': lambda key, value: {key: str(value)},
                 'maxRestarts': lambda key, value: ({'max-restarts': str(value)} if value is not None else {}),
                 'replicate': lambda key, value: {key: str(value)},
-                'aggregate': lambda key, value: {key: str(value).lower()},
+                'aggregate': lambda key, value: {key: str(value).lower() if isinstance(value, bool) else value},
                 'repeatInterval': lambda key, value: {'repeat-interval': str(value)},
-                'isMigratable': lambda key, value: {key: str(value).lower()},
+                'isMigratable': lambda key, value: {key: str(value).lower() if isinstance(value, bool) else value},
             }
         )
 
@@ -1860,7 +1860,7 @@ class Dosini(object):
                 required={
                 },
                 optional={
-                    'disable': lambda key, value: {'optimizerDisable': str(value).lower()},
+                    'disable': lambda key, value: {'optimizerDisable': str(value).lower() if isinstance(value, bool) else value},
                     'exploitChance': lambda key, value: {'optimizerExploitChance': str(value)},
                     'exploitTarget': lambda key, value: {'optimizerExploitTarget': str(value)},
                     'exploitTargetLow': lambda key, value: {'optimizerExploitTargetLow': str(value)},
@@ -1874,8 +1874,8 @@ class Dosini(object):
                 comp['workflowAttributes'].get('memoization', {}).get('disable', {}),
                 required={},
                 optional={
-                    'strong': lambda key, value: {'memoization-disable-strong': str(value).lower()},
-                    'fuzzy': lambda key, value: {'memoization-disable-fuzzy': str(value).lower()},}))
+                    'strong': lambda key, value: {'memoization-disable-strong': str(value).lower() if isinstance(value, bool) else value},
+                    'fuzzy': lambda key, value: {'memoization-disable-fuzzy': str(value).lower() if isinstance(value, bool) else value},}))
         flat.update(
             cls._translate_dict_to_dict(
                 comp['workflowAttributes'].get('memoization', {}),
@@ -2061,7 +2061,7 @@ class Dosini(object):
 
         def bool_to_str(key, value):
             # type: (str, bool) -> Dict[str, str]
-            return {key: str(value).lower()}
+            return {key: str(value).lower() if isinstance(value, bool) else value}
 
         key = 'command'
 
